@@ -133,7 +133,8 @@ def job_llk(job):
     garrs = [np.array([haps[i] for i in g], np.int8).reshape(P, len(A)) for g in gens]
     gidx = [np.array(g) for g in gens]
     tag = "A=%s|P=%d" % ("x".join(map(str, A)), P)
-    count_variants = {1: [(1,), (3,)], 2: [(1, 1), (2, 3)], 3: [(1, 1, 1), (2, 1, 3)]}
+    # a count of 0 is a read observed zero times: it must contribute nothing (padded read tables carry such rows)
+    count_variants = {1: [(1,), (3,)], 2: [(1, 1), (2, 3), (0, 2), (3, 0)], 3: [(1, 1, 1), (2, 1, 3), (2, 0, 1), (0, 3, 1)]}
     for k in range(1, maxR + 1):
         for combo in itertools.combinations_with_replacement(range(len(letters)), k):
             if combo[0] % nchunks != ch:
@@ -146,7 +147,13 @@ def job_llk(job):
                 # (read, count k) == k copies
                 Rexp = np.array([reads[i] for i in range(k) for _ in range(counts[i])], float)
                 for gi, g in enumerate(gens):
-                    want = ref.llk(rref, counts, [haps[i] for i in g])
+                    if 0 in counts:
+                        live = [i for i in range(k) if counts[i] > 0]
+                        want = ref.llk([rref[i] for i in live], [counts[i] for i in live], [haps[i] for i in g])
+                        if want == -math.inf or ref.llk(rref, [1] * k, [haps[i] for i in g]) == -math.inf:
+                            continue  # 0 x log(0) is outside the alphabet
+                    else:
+                        want = ref.llk(rref, counts, [haps[i] for i in g])
                     got = float(log_likelihood(R, garrs[gi], C))
                     r.evaluations += 1
                     if P >= 2 or k >= 2:
